@@ -207,8 +207,9 @@ def main():
     ev = {'property_id': prop, 'tier': a.tier, 'seed': seed, 'level': level, 'coverage': cov,
           'assumptions': assumptions, 'wall_s': round(time.time() - t0, 2),
           'violations': len(violations)}
-    os.makedirs(os.path.join(VERIF, 'evidence'), exist_ok=True)
-    with open(os.path.join(VERIF, 'evidence', '%s.json' % prop), 'w') as fh:
+    evdir = os.environ.get('VERIF_EVIDENCE_DIR') or os.path.join(VERIF, 'evidence')   # override: seeded-mutant evaluation only
+    os.makedirs(evdir, exist_ok=True)
+    with open(os.path.join(evdir, '%s.json' % prop), 'w') as fh:
         json.dump(ev, fh, indent=1)
 
     for k in known_lines:
